@@ -386,9 +386,9 @@ def run(ctx):
             ctx.note_unarmed(R_entry, e, "entry point not found under this path")
     # "every public open/parse/list/read entry point": besides the named ones, every `pub fn` of the ten crates whose name says it
     # consumes a file (parse*/open*/read*/load*/list*/from_bytes/from_reader/decompress*) is a root of its own
-    R_pub = ctx.rule("C05.public-readers-are-roots", "every pub fn named parse*/open*/read*/load*/list*/from_bytes/from_reader/decompress* is a root of the analysed call graph", floor=300)
+    R_pub = ctx.rule("C05.public-readers-are-roots", "every pub fn named parse*/open*/read*/load*/list*/from_bytes/from_reader/decompress*/discover* is a root of the analysed call graph", floor=300)
     for pth, f_ in cg.fns.items():
-        if f_.d.get("vis") == "pub" and re.match(r"(parse|open|read|load|list|from_bytes|from_reader|decompress|get_record|record_iterator|iter_records)", pth.split("::")[-1]) and "::tests::" not in pth and pth not in roots:
+        if f_.d.get("vis") == "pub" and re.match(r"(parse|open|read|load|list|from_bytes|from_reader|decompress|get_record|record_iterator|iter_records|discover)", pth.split("::")[-1]) and "::tests::" not in pth and pth not in roots:
             roots.append(pth)
             ctx.ok(R_pub, pth) if len(ctx.samples) < 320 else ctx.rules[R_pub].__setitem__("obligations", ctx.rules[R_pub]["obligations"] + 1) or ctx.rules[R_pub].__setitem__("discharged", ctx.rules[R_pub]["discharged"] + 1)
     reach = cg.local_reachable(roots)
@@ -546,6 +546,17 @@ def run(ctx):
                     continue
                 ops = t["ops"]
                 whys = [ft.operand_tainted(o) for o in ops]
+                def _calls_of(o_):
+                    if ft.cfg is None:
+                        ft.cfg = mirg.Cfg(f)
+                        ft.du = mirg.DefUse(f)
+                    l_ = op_local(o_)
+                    return [(ncallee(c_) or "") for c_ in (ft.du.slice_back(l_, depth=6, through_index=False)[1] if l_ is not None else [])]
+                if opk == "Sub" and any(whys) and any(re.search(r"Iterator::max$|::max$", c_) for c_ in _calls_of(ops[0])) and any(re.search(r"Iterator::min$|::min$", c_) for c_ in _calls_of(ops[1])) \
+                        and any(c_.endswith("::iter") or "IntoIterator" in c_ for c_ in _calls_of(ops[0])):
+                    # the maximum of a collection minus the minimum of the same collection cannot underflow
+                    ctx.ok(R_arith, {"fn": path, "op": opk, "line": t["ln"], "note": "max(X) - min(X) of one collection"})
+                    continue
                 if any(whys) and opk == "Sub" and _widened_signed(f, ft, ops):
                     ctx.ok(R_arith, {"fn": path, "op": opk, "line": t["ln"], "note": "signed subtraction carried out wider than both operands were read (iN::from / as iN of narrower integers): cannot overflow"})
                     continue
